@@ -13,7 +13,16 @@ pub const UNKNOWN_KEYS: [&str; 16] = [
     "rots", "DISP", "s", "v", "mat",
 ];
 
-const F64_SPECIALS: [u64; 18] = [
+const F64_SPECIALS: [u64; 26] = [
+    // f32 quantities that ended up in an f64 (data imported from single precision)
+    0x3FB9_9999_A000_0000, // 0.1f32 as f64
+    0x47EF_FFFF_E000_0000, // f32::MAX as f64
+    0x3E80_0000_0000_0000, // f32::EPSILON as f64
+    0x3810_0000_0000_0000, // f32::MIN_POSITIVE as f64
+    0x4009_21FB_6000_0000, // PI as f32 as f64
+    0x3FD5_5555_6000_0000, // (1/3) as f32 as f64
+    0x36A0_0000_0000_0000, // smallest f32 subnormal as f64
+    0xBFE6_6666_6000_0000, // -0.7f32 as f64
     0x0000_0000_0000_0000, // 0.0
     0x8000_0000_0000_0000, // -0.0
     0x0000_0000_0000_0001, // min subnormal
@@ -45,6 +54,9 @@ pub enum LeafStyle {
     RandomBits,
     Specials,
     Mixed,
+    /// what a graphics programmer actually stores: decimals with a few digits, angles in degrees
+    /// and multiples of pi, reciprocals, powers of two, pixel sizes
+    Typical,
 }
 
 fn int_range(k: Kind) -> (i128, i128) {
@@ -71,17 +83,53 @@ fn int_bits(k: Kind, v: i128) -> u64 {
 
 pub fn gen_leaf(rng: &mut Rng, k: Kind, class: GenClass, style: LeafStyle, ordinal: usize) -> u64 {
     let style = if style == LeafStyle::Mixed {
-        match rng.below(3) {
+        match rng.below(4) {
             0 => LeafStyle::SmallDistinct,
             1 => LeafStyle::RandomBits,
+            2 => LeafStyle::Typical,
             _ => LeafStyle::Specials,
         }
     } else {
         // keep the number of draws per leaf independent of the style
-        let _ = rng.below(3);
+        let _ = rng.below(4);
         style
     };
     let r = rng.next_u64();
+    if style == LeafStyle::Typical {
+        let n = (r >> 8) % 100_000;
+        let sign = if r & 1 == 0 { 1.0 } else { -1.0 };
+        let mut x: f64 = match (r >> 1) % 12 {
+            0 => sign * (n % 1000) as f64 / 10.0,
+            1 => sign * n as f64 / 100.0,
+            2 => sign * (n % 10_000) as f64 / 1000.0,
+            3 => sign * std::f64::consts::PI * ((n % 17) as f64) / 4.0,
+            4 => sign * [90.0, 180.0, 270.0, 360.0, 45.0, 30.0, 60.0, 359.99, 0.5, 0.25][(n % 10) as usize],
+            5 => sign / (1 + n % 64) as f64,
+            6 => sign * (1u64 << (n % 40)) as f64,
+            7 => sign * [1920.0, 1080.0, 16.0 / 9.0, 4.0 / 3.0, 0.1, 0.01, 1000.0, 100.0, 1e-3, 1e6][(n % 10) as usize],
+            8 => sign * (n % 360) as f64,
+            9 => sign * ((n % 2000) as f64 / 1000.0 - 1.0),
+            10 => sign * (n as f64).sqrt(),
+            _ => sign * (n % 256) as f64,
+        };
+        if class == GenClass::Moderate {
+            x %= 8.0;
+        }
+        if k == Kind::F64 && (r >> 40) & 3 == 0 {
+            // a single-precision quantity stored in a double (imported data)
+            x = (x as f32) as f64;
+        }
+        return match k {
+            Kind::F64 => x.to_bits(),
+            // computed in f32 the way a user would have (not an f64 rounded once)
+            Kind::F32 => (x as f32).to_bits() as u64,
+            Kind::Bool => r & 1,
+            _ => {
+                let (lo, hi) = int_range(k);
+                int_bits(k, (x.abs().round() as i128 * if lo < 0 && sign < 0.0 { -1 } else { 1 }).clamp(lo, hi))
+            }
+        };
+    }
     if class == GenClass::Moderate {
         // inputs of constructors that do arithmetic: keep every product finite and non-trivial
         let x = match style {
@@ -328,7 +376,7 @@ pub fn random_plan(reg: &[TypeEntry], seed: u64, run: u64) -> Plan {
     let ti = if rng.chance(45, 100) && !dec.is_empty() { dec[rng.usize_below(dec.len())] } else { rng.usize_below(reg.len()) };
     let e = &reg[ti];
     let medium = gen_medium(&mut rng);
-    let style = [LeafStyle::SmallDistinct, LeafStyle::RandomBits, LeafStyle::Specials, LeafStyle::Mixed][rng.usize_below(4)];
+    let style = [LeafStyle::SmallDistinct, LeafStyle::RandomBits, LeafStyle::Specials, LeafStyle::Mixed, LeafStyle::Typical][rng.usize_below(5)];
     let gen = if rng.chance(1, 5) { gen_coincident(&mut rng, e) } else { gen_leaves(&mut rng, &e.gen_kinds, style) };
     let probe = &e.probes[probe_index(&medium)];
     let mut plan = Plan { ty: e.name.clone(), gen, patch: None, medium, wfaults: vec![], rfaults: vec![], retry: false, in_place: false };
@@ -533,6 +581,24 @@ pub fn sweep_plans(reg: &[TypeEntry]) -> Vec<Plan> {
                         }
                     }
                 }
+                // one field missing AND another one delivered twice (the entry count stays n), read
+                // normally and into reused storage
+                for miss in 0..n as u8 {
+                    for dup in 0..n as u8 {
+                        if dup == miss {
+                            continue;
+                        }
+                        for pos in [0u8, n as u8] {
+                            for in_place in [false, true] {
+                                let mut q = base.clone();
+                                q.rfaults.push(RFault::Drop { path: vec![], idx: vec![miss] });
+                                q.rfaults.push(RFault::Dup { path: vec![], idx: dup, pos });
+                                q.in_place = in_place;
+                                out.push(q);
+                            }
+                        }
+                    }
+                }
                 // duplicates of every field at every position
                 for idx in 0..n as u8 {
                     for pos in 0..=n as u8 {
@@ -730,7 +796,7 @@ pub fn random_jplan(reg: &[TypeEntry], seed: u64, run: u64) -> JPlan {
     let dec: Vec<usize> = reg.iter().enumerate().filter(|(_, e)| e.is_dec).map(|(i, _)| i).collect();
     let ti = if rng.chance(45, 100) && !dec.is_empty() { dec[rng.usize_below(dec.len())] } else { rng.usize_below(reg.len()) };
     let e = &reg[ti];
-    let style = [LeafStyle::SmallDistinct, LeafStyle::RandomBits, LeafStyle::Specials, LeafStyle::Mixed][rng.usize_below(4)];
+    let style = [LeafStyle::SmallDistinct, LeafStyle::RandomBits, LeafStyle::Specials, LeafStyle::Mixed, LeafStyle::Typical][rng.usize_below(5)];
     let gen = if rng.chance(1, 5) { gen_coincident(&mut rng, e) } else { gen_leaves(&mut rng, &e.gen_kinds, style) };
     let mut p = JPlan::base(&e.name, gen);
     p.pretty = rng.chance(1, 4);
